@@ -163,6 +163,37 @@ def rule_dispatch(ctx: Ctx, repo: Repo) -> None:
     ctx.floor("R-C07.6", "rewrite() dispatch scenarios on plain classes", n, 100)
 
 
+DEEP_REWRITERS = ["RemoveEmptyContainers()", "RewriteConfigDict()", "RewriteLargeUnion()", "RewriteLargeUnion(2)", "RewriteMostSpecificCommonBase()",
+                  "RewriteGenerator()", "NoOpRewriter()", "DEFAULT_REWRITER"]
+
+
+def rule_nested(ctx: Ctx, repo: Repo) -> None:
+    """R-C07.7: the whole protocol `rewriter.rewrite(t)` with a real rewriter object (its constructor run, its attributes on the
+    heap, dispatch and recursion as in the source) on types whose unions sit BELOW the top level: no exception, and the
+    result admits everything the input admitted - at every nesting position."""
+    n = 0
+    for ctor in DEEP_REWRITERS:
+        for t in RW.deep_inputs():
+            src = ctor
+            if ctor == "DEFAULT_REWRITER":
+                dr = repo.module(TY).constants.get("DEFAULT_REWRITER")
+                if dr is None:
+                    raise AnalysisError("DEFAULT_REWRITER not found")
+                src = ast.unparse(dr)  # the chain is built by running the constructors of the constant's own expression
+            res = RW.DeepScenario(repo, src).result({"t": t})
+            n += 1
+            lab = f"{ctor}.rewrite({show(t)})"
+            w = f"{TY}.{ctor.split('(')[0]}" if ctor != "DEFAULT_REWRITER" else f"{TY}.DEFAULT_REWRITER"
+            if isinstance(res, R) and res.kind == "raises":
+                ctx.violate("R-C07.7", w, f"{lab} raises {res.fields['what'].v}", "rewriting raises on a nested type inference can produce", scenario=lab)
+                continue
+            if isinstance(res, U):
+                raise AnalysisError(f"{lab}: result undetermined ({res})")
+            ctx.check(admits(res, t), "R-C07.7", w, "the result admits everything the input admitted, also where unions are nested inside containers",
+                      construct=f"{lab} -> {show(res)}", scenario=lab)
+    ctx.floor("R-C07.7", "nested-type scenarios with real rewriter objects", n, 250)
+
+
 def rule_no_memory(ctx: Ctx, repo: Repo) -> None:
     """R-C07.3: a rewriter's answer depends on (its own configuration, the type) only - not on what another
     instance rewrote earlier in the same process (module-level objects persist across the two calls)."""
@@ -324,5 +355,6 @@ def run(ctx: Ctx, repo: Repo, tier: str) -> None:
     rule_chain(ctx, repo)
     rule_container_recursion(ctx, repo)
     rule_dispatch(ctx, repo)
+    rule_nested(ctx, repo)
     from .compat_rules import compat_predicates
     compat_predicates(ctx, repo, "R-C07.5", ("is_generic_of", "is_union", "is_generic", "is_any", "is_typed_dict", "types_equal"))
